@@ -8,7 +8,7 @@ def run(tier):
     vd = common.Verdict(PID, tier)
     wd = common.scratch(PID)
     bdir = common.build("plain")
-    fams = [("altor", 3), ("subif", 3), ("fmt", 3), ("refeed", 3)] if tier == "quick" \
+    fams = [("altor", 3), ("subif", 3), ("fmt", 3), ("refeed", 3), ("closure", 3)] if tier == "quick" \
         else [("altor", 3), ("subif", 3), ("fmt", 3), ("refeed", 4), ("closure", 3), ("names", 3)]
     total = 0
     # mechanism layer (tla/Engine.tla) refines the meaning layer, exhaustively
